@@ -240,6 +240,36 @@ class KeyPool:
         raise Machinery("unknown way " + way)
 
 
+# --------------------------------------------------------------------------- certificates
+
+def synth_cert(key, serial, key_id):
+    """an OpenSSH user certificate (PROTOCOL.certkeys layout) around `key`'s public numbers with a dummy CA
+    signature - paramiko carries certificates, it does not validate them.  -> (authorized_keys-style line, blob)"""
+    from paramiko.message import Message
+    plain = Message(key.asbytes())
+    name = plain.get_text()
+    body = plain.get_remainder()
+    m = Message()
+    m.add_string(name + CERT_SUFFIX)
+    m.add_string(os.urandom(32))                      # nonce
+    m.add_bytes(body)
+    m.add_bytes(struct.pack(">Q", serial))
+    m.add_int(1)                                      # SSH_CERT_TYPE_USER
+    m.add_string(key_id)
+    principals = Message()
+    principals.add_string("someone")
+    m.add_string(principals.asbytes())
+    m.add_bytes(struct.pack(">Q", 0))
+    m.add_bytes(struct.pack(">Q", 2 ** 64 - 1))
+    m.add_string(b"")
+    m.add_string(b"")
+    m.add_string(b"")
+    m.add_string(key.asbytes())
+    m.add_string(b"dummy-signature")
+    blob = m.asbytes()
+    return "%s %s %s" % (name + CERT_SUFFIX, base64.b64encode(blob).decode(), key_id), blob
+
+
 # --------------------------------------------------------------------------- wire helpers
 
 def ssh_string(b):
@@ -406,6 +436,10 @@ def render_tamper(g, cls, arg, rnd):
             return g.build(blob=blob[:-k]), "last %d bytes removed" % k
         k = rnd.choice([63, 32, 1, 60, rnd.randint(1, 63)])
         return g.build(blob=blob[:k] if rnd.random() < 0.7 else blob[-k:]), "%d of 64 bytes" % k
+    if cls == "blob_zero_prepended":
+        k = rnd.choice([1, 1, 2, 3, 7, rnd.randint(1, 64)])
+        return g.build(blob=b"\x00" * k + blob), "%d zero octets prepended (blob of %d instead of %d octets)" % (
+            k, len(blob) + k, len(blob))
     if cls == "blob_long":
         junk = bytes(rnd.randrange(1, 256) for _ in range(rnd.choice([1, 1, 2, 16, len(blob)])))
         if fam == "rsa" and rnd.random() < 0.4:
